@@ -7,7 +7,7 @@
    on every run by flags; point decisions of sampled cases are certified by
    interval arithmetic against the model. *)
 From Coq Require Import Reals.
-From GJ Require Import Sphere.
+From GJ Require Import Sphere SphereRect SphereTriangle.
 Open Scope R_scope.
 
 Theorem C13_contains_point_iff_distance : forall clat clon meters plat plon,
@@ -22,4 +22,19 @@ Theorem C13_operand_order : forall clat clon meters plat plon,
   circle_contains_point clat clon meters plat plon <-> hav clat clon plat plon <= dist_to_hav meters.
 Proof. exact circle_point_order. Qed.
 
+(* Circle.Contains(Circle) - centre distance + radius of B <= radius of A - is sound: every point of B is within A *)
+Theorem C13_circle_contains_circle_sound : forall latA lonA rA latB lonB rB plat plon,
+  lat_ok latA -> lat_ok latB -> lat_ok plat -> 0 <= rB <= piR -> 0 <= rA <= piR ->
+  distance_to latA lonA latB lonB + rB <= rA ->
+  circle_contains_point latB lonB rB plat plon -> circle_contains_point latA lonA rA plat plon.
+Proof. exact circle_contains_circle_sound. Qed.
+
+(* Circle.Intersects(Circle), the "only if" half: circles that share a point have centre distance <= sum of the radii *)
+Theorem C13_circles_meet_only_if_close : forall latA lonA rA latB lonB rB plat plon,
+  lat_ok latA -> lat_ok latB -> lat_ok plat -> 0 <= rA <= piR -> 0 <= rB <= piR ->
+  circle_contains_point latA lonA rA plat plon -> circle_contains_point latB lonB rB plat plon ->
+  distance_to latA lonA latB lonB <= rA + rB.
+Proof. exact circles_meet_only_if_close. Qed.
+
 Print Assumptions C13_contains_point_iff_distance.
+Print Assumptions C13_circle_contains_circle_sound.
